@@ -191,7 +191,15 @@ class Indic:
             saved_loops = self.loop_pending
             self.loop_pending = []
             try:
-                ex = self.block(node.body, fr, ())
+                try:
+                    ex = self.block(node.body, fr, ())
+                except PyRaise as e_:
+                    if not hasattr(e_, "where"):
+                        # the innermost function the exception leaves: inside a numba kernel an out-of-bounds index is not
+                        # checked at all in the compiled code (undefined behaviour), in plain Python it raises
+                        e_.where = getattr(f, "name", "?")
+                        e_.jit = any("jit" in ast.dump(d) for d in getattr(node, "decorator_list", []))
+                    raise
                 result = ex[1] if ex[0] == RET else None
                 for cond, val, flip in reversed(self.fn_pending[-1]):
                     result = self.join_val(cond, val, result) if not flip else self.join_val(cond, result, val)
